@@ -23,7 +23,7 @@ CHECKS = {
     level="model_checking", ref="DESIGN.md §4 C04",
     technique="TLA+ spec EmuCore/EmuFull (thread state machine) explored by TLC; one ovniemu history per model transition (accepted and rejected, with legal completion); observed thread.prv timelines and verdict validated by EmuTrace.tla",
     text="TLC enumerates the full state graph of 2 threads x {OHx,OHp,OHr,OHc,OHw,OHe} x 3 CPU targets with invariants (TidShownIffActive, CpuIffStarted, ...). Every transition of the graph becomes a synthetic trace replayed by the real ovniemu; trace validation compares the state/TID/CPU timelines after every event and the final verdict with the specification, so both directions of the 'accepted exactly when legal' claim are exercised.",
-    note="Bounded: 2 threads, histories up to the graph diameter; rows identified through .row names. A dead thread executing again is Unspecified."),
+    note="Bounded: 2 threads, histories up to the graph diameter; rows identified through .row names. Events of a stream after its thread is dead are Unspecified (a dead thread executing again is rejected: fixed defect 958e849)."),
  "C05": dict(
     level="model_checking", ref="DESIGN.md §4 C05",
     technique="TLA+ spec EmuCore (CPU occupancy, local/remote affinity) explored by TLC; transition-cover histories replayed on ovniemu; cpu.prv/thread.prv timelines validated by EmuTrace.tla",
